@@ -10,9 +10,11 @@ import (
 	"fmt"
 	"math/big"
 	"os"
+	"runtime"
 	"sort"
 	"strings"
 	"sync"
+	"sync/atomic"
 	"testing"
 
 	"github.com/keep-network/keep-common/pkg/persistence"
@@ -123,7 +125,14 @@ func c38KeyShares() ([]*tecdsa.PrivateKeyShare, error) {
 	return c38Shares, c38SharesErr
 }
 
+// c38IDYields: how often the injected wallet ID function (a chain handle call
+// in production) yields the processor; drawn per concurrent step.
+var c38IDYields atomic.Int32
+
 func c38WalletID(pk *ecdsa.PublicKey) ([32]byte, error) {
+	for i := int32(0); i < c38IDYields.Load(); i++ {
+		runtime.Gosched()
+	}
 	var buf [64]byte
 	pk.X.FillBytes(buf[:32])
 	pk.Y.FillBytes(buf[32:])
@@ -155,6 +164,7 @@ type c38Machine struct {
 
 	// statistics
 	archives, crashes, failures, restarts, reRegisteredAfterArchive, overwrites int
+	concurrentSteps, concurrentNewWallet                                        int
 	archivedOnce                                                                map[int]bool
 	archiveSinceRestart, crashSinceRestart, ntRestart                           bool
 }
@@ -260,6 +270,32 @@ func (m *c38Machine) lookups(when string) {
 		if (len(signers) > 0) != m.stored(w) {
 			m.fail("%s: registry knows wallet %d: %v, storage holds it: %v", when, w, len(signers) > 0, m.stored(w))
 		}
+		// seat level: the running registry holds exactly the member indexes the
+		// disk holds (a repeated registration may leave an older copy of the same
+		// member in memory; the newest key material must be there)
+		have := map[group.MemberIndex]bool{}
+		for _, s := range signers {
+			have[s.signingGroupMemberIndex] = true
+			if _, ok := m.storage[w][s.signingGroupMemberIndex]; !ok {
+				m.fail("%s: running registry holds member %d of wallet %d which storage does not hold", when, s.signingGroupMemberIndex, w)
+			}
+		}
+		for idx, rec := range m.storage[w] {
+			if !have[idx] {
+				m.fail("%s: storage holds member %d of wallet %d but the running registry does not know that signer (it knows %d signers; a restarted registry would know %d)", when, idx, w, len(signers), len(m.storage[w]))
+			}
+			found := false
+			for _, s := range signers {
+				if s.signingGroupMemberIndex == idx {
+					if got, err := s.Marshal(); err == nil && bytes.Equal(got, rec) {
+						found = true
+					}
+				}
+			}
+			if !found {
+				m.fail("%s: running registry holds member %d of wallet %d with other key material than storage", when, idx, w)
+			}
+		}
 	}
 	var known int
 	for w := range m.wallets {
@@ -334,6 +370,110 @@ func (m *c38Machine) afterRestart() {
 	m.lookups("after restart")
 }
 
+// compareWithRestarted loads a second registry from the same disk, checks it
+// against the models like after a restart, and keeps the running one.
+func (m *c38Machine) compareWithRestarted() {
+	running, disk := m.reg, m.disk
+	m.open()
+	m.afterRestart()
+	for w := range m.wallets {
+		a, b := map[group.MemberIndex]bool{}, map[group.MemberIndex]bool{}
+		for _, s := range running.getSigners(m.wallets[w].pk) {
+			a[s.signingGroupMemberIndex] = true
+		}
+		for _, s := range m.reg.getSigners(m.wallets[w].pk) {
+			b[s.signingGroupMemberIndex] = true
+		}
+		if len(a) != len(b) {
+			m.fail("running registry knows %d members of wallet %d, a registry restarted on the same storage knows %d", len(a), w, len(b))
+		}
+		for idx := range b {
+			if !a[idx] {
+				m.fail("a restarted registry knows member %d of wallet %d, the running one does not", idx, w)
+			}
+		}
+	}
+	m.reg, m.disk = running, disk
+}
+
+// registerConcurrently registers several seats of one wallet from parallel
+// goroutines released together (the DKG executor registers one signer per
+// controlled seat this way). Storage works; the wallet ID function yields.
+func (m *c38Machine) registerConcurrently(w int, seats []group.MemberIndex, shareOf []int, yields int) {
+	type job struct {
+		s   *signer
+		rec []byte
+		err error
+		p   any
+	}
+	jobs := make([]*job, len(seats))
+	for i, idx := range seats {
+		s := newSigner(m.wallets[w].pk, m.wallets[w].operators, idx, m.shares[shareOf[i]])
+		rec, err := s.Marshal()
+		if err != nil {
+			m.t.Fatalf("VERIF-INCONCLUSIVE: cannot marshal a generated signer: %v", err)
+		}
+		jobs[i] = &job{s: s, rec: rec}
+	}
+	m.disk.mu.Lock()
+	m.disk.next = "ok"
+	m.disk.mu.Unlock()
+	wasStored := m.stored(w)
+	mark := m.appliedMark()
+	c38IDYields.Store(int32(yields))
+	var ready atomic.Int32
+	var gate atomic.Bool
+	var wg sync.WaitGroup
+	for _, j := range jobs {
+		wg.Add(1)
+		go func(j *job) {
+			defer wg.Done()
+			defer func() { j.p = recover() }()
+			ready.Add(1)
+			for !gate.Load() {
+				runtime.Gosched()
+			}
+			j.err = m.reg.registerSigner(j.s)
+		}(j)
+	}
+	for ready.Load() != int32(len(jobs)) {
+		runtime.Gosched()
+	}
+	gate.Store(true)
+	wg.Wait()
+	c38IDYields.Store(0)
+	m.logf("register-concurrently(w%d,m%v,yields=%d)", w, seats, yields)
+	m.concurrentSteps++
+	if !wasStored {
+		m.concurrentNewWallet++
+	}
+	applied := map[string]bool{}
+	for _, a := range m.appliedSince(mark) {
+		applied[a] = true
+	}
+	for i, j := range jobs {
+		if j.p != nil {
+			m.fail("registerSigner panicked in a concurrent registration: %v", j.p)
+		}
+		idx := seats[i]
+		if applied[fmt.Sprintf("save %s/membership_%v", m.dirOf(w), idx)] {
+			if _, again := m.storage[w][idx]; again {
+				m.overwrites++
+			}
+			m.storage[w][idx] = j.rec
+			if _, ok := m.registered[w][idx]; ok {
+				m.registered[w][idx] = j.rec
+			}
+		}
+		if j.err == nil {
+			m.registered[w][idx] = j.rec
+		}
+	}
+	// running registry == restarted registry == model
+	m.lookups("after " + m.tr[len(m.tr)-1])
+	m.compareWithRestarted()
+}
+
 func (m *c38Machine) restart(why string) {
 	if m.archiveSinceRestart && m.crashSinceRestart {
 		m.ntRestart = true
@@ -382,12 +522,20 @@ func TestVerif_C38_WalletRegistry(t *testing.T) {
 		outcomes := []string{"ok", "ok", "ok", "ok", "ok", "ok", "ok", "fail", "fail", "crash-before", "crash-after", "crash-after"}
 		steps := rapid.IntRange(3, 30).Draw(t, "steps")
 		for i := 0; i < steps; i++ {
-			op := rapid.SampledFrom([]string{"register", "register", "register", "register", "archive", "archive", "restart"}).Draw(t, "op")
+			op := rapid.SampledFrom([]string{"register", "register", "register", "register-concurrently", "register-concurrently", "archive", "archive", "restart"}).Draw(t, "op")
 			w := rapid.IntRange(0, 2).Draw(t, "wallet")
 			idx := group.MemberIndex(rapid.IntRange(1, 5).Draw(t, "member"))
 			share := rapid.IntRange(0, len(shares)-1).Draw(t, "share")
 			outcome := rapid.SampledFrom(outcomes).Draw(t, "outcome")
+			// parameters of a concurrent step (drawn unconditionally)
+			seatOrder := rapid.Permutation([]group.MemberIndex{1, 2, 3, 4, 5}).Draw(t, "seats")
+			nSeats := rapid.IntRange(2, 5).Draw(t, "seatCount")
+			seatShares := rapid.SliceOfN(rapid.IntRange(0, len(shares)-1), 5, 5).Draw(t, "seatShares")
+			yields := rapid.IntRange(0, 3).Draw(t, "walletIdYields")
 			switch op {
+			case "register-concurrently":
+				m.registerConcurrently(w, seatOrder[:nSeats], seatShares[:nSeats], yields)
+				continue
 			case "register":
 				s := newSigner(m.wallets[w].pk, m.wallets[w].operators, idx, shares[share])
 				rec, err := s.Marshal()
@@ -474,6 +622,8 @@ func TestVerif_C38_WalletRegistry(t *testing.T) {
 			fmt.Sprintf("storage-failures:%d", min(m.failures, 2)), fmt.Sprintf("restarts:%d", min(m.restarts, 5)),
 			fmt.Sprintf("re-registered-after-archive:%v", m.reRegisteredAfterArchive > 0),
 			fmt.Sprintf("member-overwritten:%v", m.overwrites > 0),
+			fmt.Sprintf("concurrent-registration-steps:%d", min(m.concurrentSteps, 4)),
+			fmt.Sprintf("concurrent-registration-of-new-wallet:%d", min(m.concurrentNewWallet, 3)),
 			"signers-at-end:"+strings.Join(stored, "/"))
 	})
 }
